@@ -164,6 +164,7 @@ func (e *Exec) execInstr(f *frame, in ssa.Instruction, h *Heap, g string) (*Heap
 		e.set(f, x, v)
 	case *ssa.ChangeType:
 		v := e.val(f, x.X)
+		e.convSite(f, x, x.X, v, h, g)
 		if e.s.sortOf(x.X.Type()) != e.s.sortOf(x.Type()) {
 			e.set(f, x, e.freshVal("ct", x.Type()))
 			e.drop("ChangeType across sorts")
@@ -171,6 +172,7 @@ func (e *Exec) execInstr(f *frame, in ssa.Instruction, h *Heap, g string) (*Heap
 			e.set(f, x, v)
 		}
 	case *ssa.Convert:
+		e.convSite(f, x, x.X, e.val(f, x.X), h, g)
 		e.set(f, x, e.convert(f, x, h))
 	case *ssa.TypeAssert:
 		e.typeAssert(f, x, &g, h)
@@ -939,5 +941,21 @@ func (e *Exec) heapInv(a *Addr, h *Heap) {
 		t := e.evalSpec(sf, []Val{{T: a.Ref, Typ: sf.Params[0].Type()}}, h, nil)
 		e.s.assert(implies(not(eq(a.Ref, "null")), t))
 		e.eng.assumes["invariant of every "+parts[1]+" object assumed: "+c.Text] = true
+	}
+}
+
+// convSite: obligations declared with "convinv" for conversions of non-constant values to a named type.
+func (e *Exec) convSite(f *frame, x ssa.Value, from ssa.Value, v Val, h *Heap, g string) {
+	if e.specDepth > 0 || e.quiet > 0 {
+		return
+	}
+	for _, ci := range e.eng.convInvs(f.fn, x.Type()) {
+		if _, isConst := from.(*ssa.Const); isConst || !e.wantClause(ci.c) {
+			continue
+		}
+		v.Typ = from.Type()
+		e.callOrd["convinv:"+ci.c.Label]++
+		t := e.evalSpec(e.eng.ld.specFunc(ci.fs, ci.c), []Val{v}, h, nil)
+		e.addObligation(f, "conversion", ci.c, fmt.Sprintf("conv.%s@%s%d", labelOr(ci.c, "inv"), f.path, e.callOrd["convinv:"+ci.c.Label]), g, t, x.Pos())
 	}
 }
